@@ -16,7 +16,7 @@ RULE = ("bounded-exhaustive bracket sequences: every sequence of N leaves from {
 ASSUMPTIONS = ["programs whose only issue is gates after a trailing unmatched prepare_all are not judged (statement ambiguous)",
                "termination of accepted programs is C08's clause: a step-budget overrun here is inconclusive for C12"]
 TIERS = {"quick": {"shards": 8, "budget_s": 120}, "thorough": {"shards": 16, "budget_s": 480}}
-REQUIRE = {"built-through-CircuitBuilder": 300, "idle-gate-variants": 2000, "loop-count-overridden-programs": 1000, "object-assembled-programs": 2000, "ref-accept": 500, "ref-reject:measure-without-prepare": 100, "ref-reject:gate-outside-subcircuit": 100,
+REQUIRE = {"bracket-programs-through-CircuitBuilder": 150, "built-through-CircuitBuilder": 300, "idle-gate-variants": 2000, "loop-count-overridden-programs": 1000, "object-assembled-programs": 2000, "ref-accept": 500, "ref-reject:measure-without-prepare": 100, "ref-reject:gate-outside-subcircuit": 100,
            "ref-reject:measure-in-loop-closes-earlier-prepare": 50, "states-compared": 500}
 
 
@@ -89,6 +89,26 @@ def judge(case):
 
 def _clauses(case):
     return {f[0] for f in judge(case)[1]}
+
+
+def macroify_subcircuits(prog):
+    hit = [False]
+
+    def rw(s, in_sub):
+        if not isinstance(s, tuple):
+            return s
+        if s[0] == "gate" and s[1] == "X" and in_sub:
+            hit[0] = True
+            return ("gate", "mx1") + s[2:]
+        return tuple(rw(x, in_sub or s[0] == "subcircuit_block") for x in s)
+
+    out = rw(prog, False)
+    if not hit[0]:
+        return None
+    # a subcircuit block at top level also sits in a `loop 1 { }`: the builder may then build it before the circuit exists
+    out = tuple(("loop", 1, ("sequential_block", x)) if (isinstance(x, tuple) and x[0] == "subcircuit_block") else x for x in out)
+    k = max([i for i, x in enumerate(out) if isinstance(x, tuple) and x[0] in sx.HEADER] + [0])
+    return out[:k + 1] + (("macro", "mx1", "a", ("sequential_block", ("gate", "X", "a"))),) + out[k + 1:]
 
 
 def idle_variant(prog):
@@ -269,6 +289,13 @@ def shard(ctx):
                 if ip is not None:
                     process(ctx, {"prog": ip}, seen, minimise_budget=0)
                     rec.count("idle-gate-variants")
+            if True:
+                # ordinary gates inside subcircuit blocks turned into calls of a one-gate macro, and the program put
+                # together with the CircuitBuilder (loops and macros built at once or unevaluated): same bracket structure
+                mp = macroify_subcircuits(prog)
+                if mp is not None:
+                    process(ctx, {"prog": mp, "assemble": "builder", "bseed": ctx.rng.randrange(1 << 30)}, seen, minimise_budget=0)
+                    rec.count("bracket-programs-through-CircuitBuilder")
             if j % 3 == 0:
                 lp = letify(ctx.rng, prog)
                 if lp is not None:
